@@ -201,6 +201,41 @@ fn grid_large<E: Elem, N: ArrayLength>(st: &mut Stats) {
     }
 }
 
+/// lengths no allocator can serve (10^18 bytes): the boxed forms must answer a size hint that
+/// rules N out with LengthError / the "expected N items" panic *before* asking for the block —
+/// an implementation that allocates first dies in handle_alloc_error instead
+fn huge_n_boxed(st: &mut Stats) {
+    type Huge = generic_array::typenum::U1000000000000000000;
+    let n = <Huge as generic_array::typenum::Unsigned>::USIZE;
+    for (c, hint) in [(0usize, Hint::Exact), (3, Hint::Exact), (5, Hint::Fixed(0, Some(7))), (2, Hint::UpperLow), (4, Hint::Fixed(1, Some(1 << 40)))] {
+        for boxed_collect in [false, true] {
+            let form = if boxed_collect { "from_iter.box" } else { "try_boxed_from_iter" };
+            st.check_case("C07", form, "u8", || format!("C07 {form} u8 N={n} c={c} hint={} (no block of N bytes can exist)", hint.name()), true, || {
+                let (src, log) = ScriptIter::<u8>::new(c, hint, true, None);
+                let r = vkit::catch(move || {
+                    if boxed_collect {
+                        let b: Box<GA<u8, Huge>> = src.collect();
+                        Some(b.len())
+                    } else {
+                        GA::<u8, Huge>::try_boxed_from_iter(src).ok().map(|b| b.len())
+                    }
+                });
+                let log = log.borrow().clone();
+                if log.polls > 0 && log.polls > c + 1 {
+                    return Err(format!("TooManyPolls: {} polls of a {c}-item source", log.polls));
+                }
+                match r {
+                    Caught::Returned(Some(_)) => Err("WrongOk: an array of 10^18 elements was returned".into()),
+                    Caught::Returned(None) => Ok(()),
+                    Caught::Other(m) if boxed_collect && m.contains(&format!("expected {n} items")) => Ok(()),
+                    Caught::Other(m) => Err(format!("Panic: {m}")),
+                    Caught::Injected(..) => Err("HarnessBug: injected".into()),
+                }
+            });
+        }
+    }
+}
+
 macro_rules! lens {
     ($st:expr, $args:expr, $E:ty, [$($v:literal),*]) => { $( if $v <= $args.maxn { grid::<$E, U<$v>>($st, &$args); } )* };
 }
@@ -222,6 +257,9 @@ fn main() {
     }
     if args.flavour_on("HeapTok") {
         lens!(&mut st, args, HeapTok, [0, 1, 2, 3, 4, 5]);
+    }
+    if args.part_on("large") && args.maxn >= 200 && args.flavour_on("u32") && !cfg!(miri) {
+        huge_n_boxed(&mut st);
     }
     if args.part_on("large") && args.maxn >= 200 {
         // > 1 KiB by many small elements and by a few fat ones
